@@ -1,1 +1,502 @@
-//! Seeded program generators (filled in per family).
+//! Seeded generators of xeh programs over (nearly) the whole dictionary.
+//!
+//! The generator simulates an abstract type stack so that most generated words find operands
+//! of a plausible type (otherwise almost every program would die on its first word), wraps
+//! code into every control structure of the language, defines and calls words, uses locals,
+//! globals, vector/map builders, meta blocks, tags and the binary-parsing cursor.  A small
+//! fraction of tokens is drawn blindly from the dictionary so that failing paths are reached.
+//!
+//! Excluded by the properties' own quantifiers: random, random-bits, read-all, write-all,
+//! exec-piped, include, require (non-deterministic or external), exit.
+use crate::Rng;
+
+#[derive(Clone, Copy, PartialEq, Debug)]
+pub enum T {
+    Int,
+    Flag,
+    Strr,
+    Vect,
+    Mapp,
+    Bits,
+    Nil,
+    Real,
+    Any,
+}
+use T::*;
+
+pub struct Sig {
+    pub name: &'static str,
+    pub ins: &'static [T],
+    pub outs: &'static [T],
+}
+
+macro_rules! sig {
+    ($n:expr, [$($i:expr),*], [$($o:expr),*]) => {
+        Sig { name: $n, ins: &[$($i),*], outs: &[$($o),*] }
+    };
+}
+
+/// Signatures of the words the generator uses deliberately (inputs: deepest first).
+pub const SIGS: &[Sig] = &[
+    sig!("dup", [Any], [Any, Any]),
+    sig!("drop", [Any], []),
+    sig!("swap", [Any, Any], [Any, Any]),
+    sig!("over", [Any, Any], [Any, Any, Any]),
+    sig!("rot", [Any, Any, Any], [Any, Any, Any]),
+    sig!("depth", [], [Int]),
+    sig!("+", [Int, Int], [Int]),
+    sig!("-", [Int, Int], [Int]),
+    sig!("*", [Int, Int], [Int]),
+    sig!("/", [Int, Int], [Int]),
+    sig!("rem", [Int, Int], [Int]),
+    sig!("+", [Real, Real], [Real]),
+    sig!("*", [Real, Real], [Real]),
+    sig!("neg", [Int], [Int]),
+    sig!("abs", [Int], [Int]),
+    sig!("min", [Int, Int], [Int]),
+    sig!("max", [Int, Int], [Int]),
+    sig!("<", [Int, Int], [Flag]),
+    sig!("<=", [Int, Int], [Flag]),
+    sig!(">", [Int, Int], [Flag]),
+    sig!(">=", [Int, Int], [Flag]),
+    sig!("==", [Int, Int], [Flag]),
+    sig!("<>", [Int, Int], [Flag]),
+    sig!("and", [Flag, Flag], [Flag]),
+    sig!("or", [Flag, Flag], [Flag]),
+    sig!("xor", [Flag, Flag], [Flag]),
+    sig!("not", [Flag], [Flag]),
+    sig!("band", [Int, Int], [Int]),
+    sig!("bor", [Int, Int], [Int]),
+    sig!("bxor", [Int, Int], [Int]),
+    sig!("bnot", [Int], [Int]),
+    sig!("popcnt", [Int], [Int]),
+    sig!(">real", [Int], [Real]),
+    sig!(">int", [Real], [Int]),
+    sig!("round", [Real], [Real]),
+    sig!("zero?", [Int], [Flag]),
+    sig!("positive?", [Int], [Flag]),
+    sig!("negative?", [Int], [Flag]),
+    sig!("equal?", [Any, Any], [Flag]),
+    sig!("nil?", [Any], [Flag]),
+    sig!("int?", [Any], [Flag]),
+    sig!("str?", [Any], [Flag]),
+    sig!("vec?", [Any], [Flag]),
+    sig!("bitstr?", [Any], [Flag]),
+    sig!("bool?", [Any], [Flag]),
+    sig!("real?", [Any], [Flag]),
+    sig!("length", [Vect], [Int]),
+    sig!("length", [Strr], [Int]),
+    sig!("length", [Bits], [Int]),
+    sig!("reverse", [Vect], [Vect]),
+    sig!("sort", [Vect], [Vect]),
+    sig!("push", [Any, Vect], [Vect]),
+    sig!("unbox", [Vect], []),
+    sig!("concat", [Vect], [Strr]),
+    sig!("join", [Vect, Strr], [Strr]),
+    sig!("insert", [Mapp, Any, Any], [Mapp]),
+    sig!("remove", [Mapp, Any], [Mapp]),
+    sig!("get", [Mapp, Any], [Any]),
+    sig!("tags", [Any], [Any]),
+    sig!("insert-tag", [Any, Any, Any], [Any]),
+    sig!("remove-tag", [Any, Any], [Any]),
+    sig!("get-tag", [Any, Any], [Any]),
+    sig!("with-tags", [Any, Mapp], [Any]),
+    sig!("print", [Any], []),
+    sig!("println", [Any], []),
+    sig!("newline", [], []),
+    sig!(".s", [], []),
+    sig!("bitstr-len", [Bits], [Int]),
+    sig!("bitstr-append", [Bits, Bits], [Bits]),
+    sig!("bitstr-not", [Bits], [Bits]),
+    sig!("bitstr-and", [Bits, Bits], [Bits]),
+    sig!("bitstr-or", [Bits, Bits], [Bits]),
+    sig!("bitstr-xor", [Bits, Bits], [Bits]),
+    sig!("bitstr>hex", [Bits], [Strr]),
+    sig!("hex>bitstr", [Strr], [Bits]),
+    sig!(">bitstr", [Vect], [Bits]),
+    sig!(">bitstr", [Strr], [Bits]),
+    sig!("base64", [Bits], [Strr]),
+    sig!("base32", [Bits], [Strr]),
+    sig!("zero85", [Bits], [Strr]),
+    sig!("base64>", [Strr], [Any]),
+    sig!("base32>", [Strr], [Any]),
+    sig!("str>number", [Strr], [Int]),
+    sig!("u8!", [Int], [Bits]),
+    sig!("i16!", [Int], [Bits]),
+    sig!("u32be!", [Int], [Bits]),
+    sig!("u16le!", [Int], [Bits]),
+    sig!("f64!", [Real], [Bits]),
+    sig!("big", [], []),
+    sig!("little", [], []),
+    sig!("remain", [], [Int]),
+    sig!("offset", [], [Int]),
+    sig!("input", [], [Bits]),
+    sig!("u8", [], [Int]),
+    sig!("i8", [], [Int]),
+    sig!("u16", [], [Int]),
+    sig!("u16be", [], [Int]),
+    sig!("i32le", [], [Int]),
+    sig!("nulbytestr", [], [Bits]),
+    sig!("emit", [Bits], []),
+    sig!(">b", [Int], [Int]),
+];
+
+pub struct Gen {
+    pub rng: Rng,
+    pub dict: Vec<String>,
+    defs: Vec<String>,
+    vars: Vec<String>,
+    nfun: usize,
+    nvar: usize,
+    pub all_words: bool,
+    pub with_cursor: bool,
+    pub with_meta: bool,
+}
+
+const EXCLUDED: &[&str] = &[
+    "random", "random-bits", "read-all", "write-all", "exec-piped", "include", "require", "exit",
+    "see", "dump", "dump-at",
+];
+
+impl Gen {
+    pub fn new(seed: u64, dict: Vec<String>) -> Gen {
+        let dict = dict.into_iter().filter(|w| !EXCLUDED.contains(&w.as_str())).collect();
+        Gen { rng: Rng::new(seed), dict, defs: vec![], vars: vec![], nfun: 0, nvar: 0, all_words: true, with_cursor: true, with_meta: true }
+    }
+
+    fn small_int(&mut self) -> String {
+        let r = self.rng.below(20);
+        match r {
+            0 => "-1".into(),
+            1 => "255".into(),
+            2 => "0x10".into(),
+            3 => "1000".into(),
+            _ => format!("{}", self.rng.below(6)),
+        }
+    }
+
+    fn literal(&mut self, out: &mut Vec<String>, st: &mut Vec<T>) {
+        match self.rng.below(14) {
+            0..=5 => {
+                out.push(self.small_int());
+                st.push(Int);
+            }
+            6 => {
+                out.push(if self.rng.chance(1, 2) { "true".into() } else { "false".into() });
+                st.push(Flag);
+            }
+            7 => {
+                out.push(format!("\"{}\"", self.rng.pick(&["a", "", "xeh", "0f", "b c"])));
+                st.push(Strr);
+            }
+            8 => {
+                out.push(self.rng.pick(&["|ff|", "|0a 1b|", "| |", "|x.x|", "|12 34 56|", "|7|"]).to_string());
+                st.push(Bits);
+            }
+            9 => {
+                out.push(self.rng.pick(&["1.5", "0.0", "-2.25", "100.0"]).to_string());
+                st.push(Real);
+            }
+            10 => {
+                out.push("nil".into());
+                st.push(Nil);
+            }
+            11 => {
+                out.push("[".into());
+                for _ in 0..self.rng.below(4) {
+                    out.push(self.small_int());
+                }
+                out.push("]".into());
+                st.push(Vect);
+            }
+            12 => {
+                out.push("{".into());
+                for _ in 0..self.rng.below(3) {
+                    out.push(self.small_int());
+                    out.push(format!("\"k{}\"", self.rng.below(3)));
+                }
+                out.push("}".into());
+                st.push(Mapp);
+            }
+            _ => {
+                out.push(self.small_int());
+                st.push(Int);
+            }
+        }
+    }
+
+    fn matches(sig: &Sig, st: &[T]) -> bool {
+        if st.len() < sig.ins.len() {
+            return false;
+        }
+        let base = st.len() - sig.ins.len();
+        sig.ins.iter().enumerate().all(|(i, t)| *t == Any || st[base + i] == *t || st[base + i] == Any)
+    }
+
+    fn word(&mut self, out: &mut Vec<String>, st: &mut Vec<T>) {
+        let cands: Vec<&Sig> = SIGS
+            .iter()
+            .filter(|s| Self::matches(s, st))
+            .filter(|s| self.with_cursor || !matches!(s.name, "u8" | "i8" | "u16" | "u16be" | "i32le" | "nulbytestr" | "remain" | "offset" | "input" | "emit"))
+            .collect();
+        if cands.is_empty() {
+            self.literal(out, st);
+            return;
+        }
+        let s = cands[self.rng.below(cands.len())];
+        out.push(s.name.to_string());
+        for _ in 0..s.ins.len() {
+            st.pop();
+        }
+        for t in s.outs {
+            st.push(*t);
+        }
+        if s.name == "unbox" {
+            st.push(Any);
+        }
+    }
+
+    fn ensure_flag(&mut self, out: &mut Vec<String>, st: &mut Vec<T>) {
+        if st.last() == Some(&Flag) {
+            return;
+        }
+        match self.rng.below(3) {
+            0 => {
+                out.push(if self.rng.chance(1, 2) { "true".into() } else { "false".into() });
+            }
+            1 => {
+                out.push(self.small_int());
+                out.push(self.small_int());
+                out.push((*self.rng.pick(&["<", "==", ">="])).to_string());
+            }
+            _ => {
+                out.push("depth".into());
+                out.push(self.small_int());
+                out.push(">".into());
+            }
+        }
+        st.push(Flag);
+    }
+
+    /// Emit a sequence of roughly `budget` tokens.
+    pub fn seq(&mut self, budget: usize, depth: usize, out: &mut Vec<String>, st: &mut Vec<T>, in_def: bool, in_loop: bool, locals: &mut Vec<String>) {
+        let start = out.len();
+        while out.len() - start < budget {
+            let r = self.rng.below(100);
+            let left = budget.saturating_sub(out.len() - start);
+            if r < 22 {
+                self.literal(out, st);
+            } else if r < 62 {
+                self.word(out, st);
+            } else if r < 68 && depth < 5 && left > 4 {
+                // if / else / then
+                self.ensure_flag(out, st);
+                st.pop();
+                out.push("if".into());
+                let mut s1 = st.clone();
+                self.seq(left / 3, depth + 1, out, &mut s1, in_def, in_loop, locals);
+                if self.rng.chance(1, 2) {
+                    out.push("else".into());
+                    let mut s2 = st.clone();
+                    self.seq(left / 3, depth + 1, out, &mut s2, in_def, in_loop, locals);
+                }
+                out.push("then".into());
+                *st = s1;
+            } else if r < 73 && depth < 4 && left > 5 {
+                // counted loop
+                let n = self.rng.below(4);
+                let s = self.rng.below(2);
+                out.push(format!("{}", n));
+                out.push(format!("{}", s));
+                out.push("do".into());
+                let mut s1 = st.clone();
+                if self.rng.chance(2, 3) {
+                    out.push((*self.rng.pick(&["I", "I", "J"])).to_string());
+                    s1.push(Int);
+                }
+                self.seq(left / 3, depth + 1, out, &mut s1, in_def, true, locals);
+                out.push("loop".into());
+            } else if r < 76 && depth < 4 && left > 6 {
+                // begin ... until with a counter
+                out.push("0".into());
+                out.push("begin".into());
+                out.push("1".into());
+                out.push("+".into());
+                let mut s1 = st.clone();
+                s1.push(Int);
+                self.seq(left / 4, depth + 1, out, &mut s1, in_def, false, locals);
+                while s1.len() > st.len() + 1 {
+                    out.push("drop".into());
+                    s1.pop();
+                }
+                if s1.len() == st.len() + 1 {
+                    out.push("dup".into());
+                    out.push(format!("{}", 1 + self.rng.below(3)));
+                    out.push(">=".into());
+                    out.push("until".into());
+                    out.push("drop".into());
+                } else {
+                    out.push("true".into());
+                    out.push("until".into());
+                }
+            } else if r < 79 && depth < 4 && left > 8 {
+                // begin .. while .. repeat (with an optional break)
+                out.push("0".into());
+                out.push("begin".into());
+                out.push("dup".into());
+                out.push(format!("{}", 1 + self.rng.below(3)));
+                out.push("<".into());
+                out.push("while".into());
+                out.push("1".into());
+                out.push("+".into());
+                if self.rng.chance(1, 3) {
+                    out.push("dup".into());
+                    out.push("2".into());
+                    out.push("==".into());
+                    out.push("if".into());
+                    out.push("break".into());
+                    out.push("then".into());
+                }
+                out.push("repeat".into());
+                st.push(Int);
+            } else if r < 82 && depth < 4 && left > 8 {
+                // case
+                out.push(self.small_int());
+                out.push("case".into());
+                for _ in 0..(1 + self.rng.below(2)) {
+                    out.push(self.small_int());
+                    out.push("of".into());
+                    let mut s1 = st.clone();
+                    self.seq(2, depth + 1, out, &mut s1, in_def, in_loop, locals);
+                    out.push("endof".into());
+                }
+                out.push("drop".into());
+                out.push("endcase".into());
+            } else if r < 85 && !in_def && depth == 0 && left > 6 {
+                // definition
+                let name = format!("f{}", self.nfun);
+                self.nfun += 1;
+                out.push(":".into());
+                out.push(name.clone());
+                let mut s1: Vec<T> = vec![];
+                let mut l1: Vec<String> = vec![];
+                if self.rng.chance(1, 2) {
+                    // recursion guard: only non-recursive bodies, but may call earlier words
+                }
+                self.seq(left / 2, depth + 1, out, &mut s1, true, false, &mut l1);
+                out.push(";".into());
+                self.defs.push(name);
+            } else if r < 88 && !self.defs.is_empty() {
+                let name = self.defs[self.rng.below(self.defs.len())].clone();
+                out.push(name);
+                st.push(Any);
+            } else if r < 90 && in_def && !st.is_empty() {
+                let name = format!("l{}", locals.len());
+                out.push("local".into());
+                out.push(name.clone());
+                st.pop();
+                locals.push(name);
+            } else if r < 92 && in_def && !locals.is_empty() {
+                let name = locals[self.rng.below(locals.len())].clone();
+                out.push(name);
+                st.push(Any);
+            } else if r < 94 && !in_def && depth == 0 && !st.is_empty() {
+                let name = format!("v{}", self.nvar);
+                self.nvar += 1;
+                out.push("var".into());
+                out.push(name.clone());
+                st.pop();
+                self.vars.push(name);
+            } else if r < 96 && !self.vars.is_empty() {
+                let name = self.vars[self.rng.below(self.vars.len())].clone();
+                if !st.is_empty() && self.rng.chance(1, 2) {
+                    out.push("!".into());
+                    out.push(name);
+                    st.pop();
+                } else {
+                    out.push(name);
+                    st.push(Any);
+                }
+            } else if r < 97 && depth < 3 && left > 5 {
+                // vector builder with computed contents, then foreach
+                out.push("[".into());
+                let mut s1: Vec<T> = vec![];
+                for _ in 0..(1 + self.rng.below(3)) {
+                    self.literal(out, &mut s1);
+                }
+                out.push("]".into());
+                if self.rng.chance(1, 2) {
+                    out.push("foreach".into());
+                    out.push("I".into());
+                    let mut s2 = st.clone();
+                    s2.push(Any);
+                    self.seq(2, depth + 1, out, &mut s2, in_def, true, locals);
+                    out.push("loop".into());
+                } else {
+                    st.push(Vect);
+                }
+            } else if r < 98 && self.with_meta && depth < 2 && left > 4 {
+                out.push("#(".into());
+                out.push(self.small_int());
+                out.push(self.small_int());
+                out.push((*self.rng.pick(&["+", "*", "-"])).to_string());
+                out.push("#)".into());
+                st.push(Int);
+            } else if r < 99 && self.with_cursor && depth < 2 && left > 6 {
+                out.push((*self.rng.pick(&["|01 02 03 04 05|", "|ff 00 41 00|", "|7 12 3|"])).to_string());
+                out.push("open-bitstr".into());
+                for _ in 0..(1 + self.rng.below(3)) {
+                    match self.rng.below(4) {
+                        0 => {
+                            out.push(format!("{}", self.rng.below(12)));
+                            out.push("uint".into());
+                            st.push(Int);
+                        }
+                        1 => {
+                            out.push("u8".into());
+                            st.push(Int);
+                        }
+                        2 => {
+                            out.push(format!("{}", self.rng.below(9)));
+                            out.push("bits".into());
+                            st.push(Bits);
+                        }
+                        _ => {
+                            out.push(format!("{}", self.rng.below(20)));
+                            out.push("seek".into());
+                        }
+                    }
+                }
+                out.push("close-bitstr".into());
+            } else if self.all_words && !self.dict.is_empty() {
+                // a blind pick from the dictionary (failing paths, odd operand types)
+                let w = self.dict[self.rng.below(self.dict.len())].clone();
+                if !STRUCTURAL.contains(&w.as_str()) {
+                    out.push(w);
+                    st.clear();
+                }
+            } else {
+                self.word(out, st);
+            }
+        }
+    }
+
+    pub fn program(&mut self, budget: usize) -> String {
+        self.defs.clear();
+        self.vars.clear();
+        self.nfun = 0;
+        self.nvar = 0;
+        let mut out = vec![];
+        let mut st = vec![];
+        let mut locals = vec![];
+        self.seq(budget, 0, &mut out, &mut st, false, false, &mut locals);
+        out.join(" ")
+    }
+}
+
+/// Words whose blind insertion would unbalance the program structure.
+pub const STRUCTURAL: &[&str] = &[
+    "if", "else", "then", "case", "of", "endof", "endcase", "begin", "while", "until", "repeat", "break",
+    "[", "]", "{", "}", ":", ";", "late", "immediate", "local", "var", "!", "#(", "#)", "~)", "const", "do", "loop",
+    "foreach", "defined", "let", "^{", "^}", "enum", "endenum", "<name>", "include", "require", "see",
+];
